@@ -24,7 +24,7 @@ RULE = ('inputs: corpus and Annex A derivations biased towards nesting (blocks, 
 ASSUMPTIONS = ['structural depth of the output is computed from the refjs tree of the output itself; continuation lines '
                'of multi-line string / comment tokens and lines that start with a comment are exempt']
 BUDGET_S = {'quick': 60, 'thorough': 700}
-REQUIRED_HITS = ['pretty_print', 'used_printer', 'shape', 'deep_shape', 'lines_checked', 'Indentator.indent', 'Indentator.dedent', 'level_zero_at_end', 'indent_from_dispatcher']
+REQUIRED_HITS = ['pretty_print', 'used_printer', 'shape', 'deep_shape', 'lines_checked', 'Indentator.indent', 'Indentator.dedent', 'level_zero_at_end', 'indent_from_dispatcher', 'indent_to_shortcut']
 FLOOR = {'quick': 1500, 'thorough': 20000}
 
 INDENTS = ['  ', '\t', '', ' ', '   ', '    ', ' \t']
@@ -205,7 +205,11 @@ def check(ctx, levels, text, indents, with_comments, origin, history=False, forc
         printer = used_printer(indent) if used else None
         # the indentation string is also a Dispatcher setting, which the stock ruleset rules.indent() documents
         # it defers to: the last string of every case is supplied that way
-        via_dispatcher = not used and (force_dispatcher or (k == len(indents) - 1 and k > 0))
+        via_dispatcher = not used and (force_dispatcher is True or (k == len(indents) - 1 and k > 0))
+        # ... and an argument of the text-to-text shortcut calmjs.parse.es5.pretty_print, given by position or
+        # by keyword: the second string of a case with three or more
+        via_shortcut = not used and not via_dispatcher and (force_dispatcher == 'shortcut' or
+                                                            (k == 1 and len(indents) >= 3))
         levels.begin()
         try:
             if used:
@@ -215,6 +219,14 @@ def check(ctx, levels, text, indents, with_comments, origin, history=False, forc
             elif via_dispatcher:
                 out = ''.join(chunk.text for chunk in dispatcher_printer(indent)(p.tree))
                 ctx.hit('indent_from_dispatcher')
+            elif via_shortcut:
+                from calmjs.parse import es5
+                kw = {'with_comments': True} if with_comments else {}
+                if len(text) & 1:
+                    out = es5.pretty_print(text, indent, **kw)
+                else:
+                    out = es5.pretty_print(text, indent_str=indent, **kw)
+                ctx.hit('indent_to_shortcut')
             else:
                 out = pretty_print(p.tree, indent_str=indent)
         except RecursionError:
@@ -247,7 +259,7 @@ def check(ctx, levels, text, indents, with_comments, origin, history=False, forc
                 continue
             seen.add(mech)
             ctx.violation(mech, {'text': text, 'indent': indent, 'with_comments': with_comments, 'history': used,
-                           'via_dispatcher': via_dispatcher},
+                           'via_dispatcher': 'shortcut' if via_shortcut else via_dispatcher},
                           '%s\nindent %r, comment capture %s\ninput: %r\noutput: %r' % (
                               detail, indent, with_comments, text[:200], out[:300]))
         if viol:
@@ -320,7 +332,7 @@ def replay(ctx, witness):
     levels = Levels(ctx).install()
     try:
         check(ctx, levels, witness['text'], [witness.get('indent', '  ')], bool(witness.get('with_comments')), 'replay',
-              history=bool(witness.get('history')), force_dispatcher=bool(witness.get('via_dispatcher')))
+              history=bool(witness.get('history')), force_dispatcher=witness.get('via_dispatcher') or False)
     finally:
         levels.remove()
 
